@@ -34,6 +34,9 @@ pub struct Scenario {
     pub disk_events: Vec<(String, Option<String>)>,
     /// keep the server's initialisation window open: its end is a scheduler event
     pub init_as_event: bool,
+    /// the last `late_messages` messages are not in the channel when the server starts; each arrives as a
+    /// scheduler event (in message order)
+    pub late_messages: usize,
     pub max_steps: usize,
 }
 
@@ -48,6 +51,7 @@ impl Scenario {
             emmyrc: json!({}),
             disk_events: vec![],
             init_as_event: false,
+            late_messages: 0,
             max_steps: 400,
         }
     }
@@ -281,13 +285,15 @@ async fn drive(scn: &Scenario, prefix: &[usize], root: PathBuf) -> EndState {
     let pre_events = verif::trace().len();
 
     // ---- the explored phase: the real server loop as a tracked task, client messages pre-loaded
-    for m in &scn.messages {
-        let msg = match m {
-            Msg::Notify(method, p) => Message::Notification(Notification { method: method.to_string(), params: subst(p, &root_uri) }),
-            Msg::Request(id, method, p) => Message::Request(Request { id: (*id).into(), method: method.to_string(), params: subst(p, &root_uri) }),
-        };
-        let _ = tx.send(msg);
+    let to_message = |m: &Msg| match m {
+        Msg::Notify(method, p) => Message::Notification(Notification { method: method.to_string(), params: subst(p, &root_uri) }),
+        Msg::Request(id, method, p) => Message::Request(Request { id: (*id).into(), method: method.to_string(), params: subst(p, &root_uri) }),
+    };
+    let n_early = scn.messages.len().saturating_sub(scn.late_messages);
+    for m in &scn.messages[..n_early] {
+        let _ = tx.send(to_message(m));
     }
+    let mut late_next = n_early;
     let server_task = tokio::spawn(async move {
         let _ = server.run().await;
     });
@@ -324,6 +330,9 @@ async fn drive(scn: &Scenario, prefix: &[usize], root: PathBuf) -> EndState {
         if init_tx.is_some() {
             env.push(Choice::InitDone);
         }
+        if late_next < scn.messages.len() {
+            env.push(Choice::ClientMsg { index: late_next });
+        }
         let names = verif::object_names();
         let (en, running) = ctl.enabled(&env);
         if en.is_empty() {
@@ -343,7 +352,7 @@ async fn drive(scn: &Scenario, prefix: &[usize], root: PathBuf) -> EndState {
             }
             break;
         }
-        let mut extra = (outstanding.len() as u64) << 8 | disk_left.len() as u64 | (init_tx.is_some() as u64) << 20;
+        let mut extra = (outstanding.len() as u64) << 8 | disk_left.len() as u64 | (init_tx.is_some() as u64) << 20 | ((scn.messages.len() - late_next) as u64) << 24;
         for (d, _) in verif::timers() {
             extra = extra.wrapping_mul(1099511628211).wrapping_add(d);
         }
@@ -353,6 +362,10 @@ async fn drive(scn: &Scenario, prefix: &[usize], root: PathBuf) -> EndState {
                 if let Some(tx0) = init_tx.take() {
                     let _ = tx0.send(());
                 }
+            }
+            Choice::ClientMsg { index } => {
+                let _ = tx.send(to_message(&scn.messages[*index]));
+                late_next = index + 1;
             }
             Choice::Disk { .. } => {
                 mark_disk_dirty();
@@ -463,7 +476,7 @@ async fn apply(ch: &Choice, t0: tokio::time::Instant, _tx: &tokio::sync::mpsc::U
             verif::note_timer_fired(*deadline_ms);
             tokio::time::advance(std::time::Duration::from_millis(d)).await;
         }
-        Choice::ClientAnswer { .. } | Choice::Disk { .. } | Choice::InitDone => {}
+        Choice::ClientAnswer { .. } | Choice::Disk { .. } | Choice::ClientMsg { .. } | Choice::InitDone => {}
     }
 }
 
